@@ -87,6 +87,11 @@ type caseIn struct {
 	Steps []step `json:"steps"`
 	Ping  bool   `json:"ping,omitempty"`
 	Slow  bool   `json:"slow,omitempty"` // the transport's Write returns 300us after it accepted the bytes
+	// id-burst cases: Rounds rounds, each on a fresh connection: N callers of the three send APIs
+	// released by one barrier; the broker acknowledges (and, for call-and-wait, answers) every call
+	// at once.  Call ids come from the library's own generator.
+	Rounds int `json:"rounds,omitempty"`
+	N      int `json:"n,omitempty"`
 }
 
 // ---------------------------------------------------------------- history
@@ -114,6 +119,7 @@ type caller struct {
 	ackedOK  bool
 	acked    bool
 	replied  bool
+	gate     chan struct{} // when set, the caller enters the API only after it is closed (barrier)
 }
 
 type env struct {
@@ -209,6 +215,9 @@ func (e *env) startCaller(conn *iscp.Conn, t int) {
 		var err error
 		var reply *iscp.DownstreamReplyCall
 		var callID string
+		if c.gate != nil {
+			<-c.gate
+		}
 		switch c.kind {
 		case kCall:
 			callID, err = conn.SendCall(c.ctx, &iscp.UpstreamCall{DestinationNodeID: "dst", Name: name(t), Type: "ty", Payload: payloadOf(t)})
@@ -270,6 +279,76 @@ func waitDone(c *caller, d time.Duration) bool {
 	}
 }
 
+// buildTerm prints one history and its observation as a Coq e2e_case
+func buildTerm(e *env, lg []ev, outs []string, sent [][2]int, rcalls, rreplies [][3]int, drained bool) string {
+	// model caller index = position of the caller's ECall in the history
+	idx := map[int]int{}
+	n := 0
+	var outT []string
+	for _, x := range lg {
+		if x.k == 'C' {
+			if x.t >= 0 {
+				idx[x.t] = n
+			}
+			n++
+			if x.t >= 0 && x.t < len(outs) && outs[x.t] != "" {
+				outT = append(outT, "Some "+outs[x.t])
+			} else {
+				outT = append(outT, "None")
+			}
+		}
+	}
+	var evT []string
+	for _, x := range lg {
+		switch x.k {
+		case 'C':
+			k := "KCall"
+			if x.t >= 0 && x.t < len(e.callers) {
+				switch e.callers[x.t].kind {
+				case kReply:
+					k = fmt.Sprintf("(KReply %d)", 100000+x.t)
+				case kCallWait:
+					k = "KCallWait"
+				}
+			}
+			evT = append(evT, fmt.Sprintf("ECall %s %d", k, x.id))
+		case 'A':
+			evT = append(evT, fmt.Sprintf("EAck %d %d %d", x.id, x.code, x.m))
+		case 'I':
+			evT = append(evT, "EIn "+dcallTerm(x.d))
+		case 'W':
+			if i, ok := idx[x.t]; ok {
+				evT = append(evT, fmt.Sprintf("EWake %d", i))
+			}
+		case 'X':
+			if i, ok := idx[x.t]; ok {
+				evT = append(evT, fmt.Sprintf("ECancel %d", i))
+			}
+		case 'S':
+			if i, ok := idx[x.t]; ok {
+				evT = append(evT, fmt.Sprintf("ESeeClosed %d", i))
+			}
+		case 'L':
+			evT = append(evT, "EClose")
+		case 'r':
+			evT = append(evT, "ERecvCall")
+		case 'p':
+			evT = append(evT, "ERecvReply")
+		}
+	}
+	var sentT, rcT, rrT []string
+	for _, s := range sent {
+		sentT = append(sentT, fmt.Sprintf("(%d,%d)", s[0], s[1]))
+	}
+	for _, d := range rcalls {
+		rcT = append(rcT, dcallTerm(d))
+	}
+	for _, d := range rreplies {
+		rrT = append(rrT, dcallTerm(d))
+	}
+	return fmt.Sprintf("mkE2eCase %s %s %s %s %s %s", coqfmt.List(evT), coqfmt.List(outT), coqfmt.List(sentT), coqfmt.List(rcT), coqfmt.List(rrT), coqfmt.Bool(drained))
+}
+
 type result struct {
 	term     string
 	observed map[string]interface{}
@@ -279,7 +358,181 @@ type result struct {
 	ncalls   int
 }
 
+// ---------------------------------------------------------------- id bursts
+
+func burstKind(round, i int) int {
+	return []int{kCall, kCallWait, kReply, kCallWait, kCall}[(round*7+i*3+i/5)%5]
+}
+
+// one round: n callers released by one barrier on a fresh connection; every call is acknowledged
+// at once (call-and-wait callers with an even index get their reply BEFORE the ack)
+func runBurstRound(round, n int, seen map[string]int) (term string, directs []string) {
+	e := &env{canon: map[string]int{}}
+	gate := make(chan struct{})
+	for i := 0; i < n; i++ {
+		ctx, cancel := context.WithCancel(context.Background())
+		e.callers = append(e.callers, &caller{kind: burstKind(round, i), ctx: ctx, cancel: cancel, done: make(chan struct{}), gate: gate})
+	}
+	var dupIDs []string
+	inSeq := 0
+	b := broker.New(func(s *broker.Session, m message.Message) {
+		v, ok := m.(*message.UpstreamCall)
+		if !ok {
+			e.onMsg(s, m)
+			return
+		}
+		t := -1
+		if strings.HasPrefix(v.Name, "c") {
+			t, _ = strconv.Atoi(v.Name[1:])
+		}
+		e.mu.Lock()
+		defer e.mu.Unlock()
+		if prev, dup := seen[v.CallID]; dup {
+			dupIDs = append(dupIDs, fmt.Sprintf("%s (round %d caller %d, and before in round %d)", v.CallID, round, t, prev))
+		}
+		seen[v.CallID] = round
+		id := e.canonID(v.CallID)
+		req := e.canonID(v.RequestCallID)
+		e.log = append(e.log, ev{k: 'C', t: t, id: id})
+		e.sent = append(e.sent, [2]int{id, req})
+		if t < 0 || t >= len(e.callers) {
+			return
+		}
+		c := e.callers[t]
+		c.callID, c.canon, c.arrived = v.CallID, id, true
+		ack := func() {
+			e.log = append(e.log, ev{k: 'A', id: id, code: 0, m: 5000 + t}, ev{k: 'W', t: t}, ev{k: 'W', t: t})
+			s.Send(&message.UpstreamCallAck{CallID: v.CallID, ResultCode: message.ResultCodeSucceeded, ResultString: fmt.Sprintf("m%d", 5000+t)})
+		}
+		reply := func() {
+			inSeq++
+			cid := fmt.Sprintf("in%d", inSeq)
+			m := 7000 + t
+			e.log = append(e.log, ev{k: 'I', d: [3]int{e.canonID(cid), id, m}}, ev{k: 'W', t: t}, ev{k: 'W', t: t})
+			s.Send(&message.DownstreamCall{CallID: cid, RequestCallID: v.CallID, SourceNodeID: "src", Name: fmt.Sprintf("nm%d", m), Type: "ty", Payload: payloadOf(m)})
+		}
+		switch {
+		case c.kind != kCallWait:
+			ack()
+		case t%2 == 0:
+			reply()
+			ack()
+		default:
+			ack()
+			reply()
+		}
+	})
+	defer b.Release()
+	var conn *iscp.Conn
+	var cerr error
+	if !guarded(func() {
+		conn, cerr = iscp.Connect(b.Address, broker.TransportName, iscp.WithConnPingInterval(time.Hour), iscp.WithConnPingTimeout(time.Hour))
+	}) {
+		return "", []string{"Blocked: iscp.Connect did not return within the watchdog"}
+	}
+	if cerr != nil {
+		return "", []string{"connection setup failed: " + cerr.Error()}
+	}
+	for t := range e.callers {
+		e.startCaller(conn, t)
+	}
+	time.Sleep(50 * time.Microsecond) // let the goroutines reach the barrier
+	close(gate)
+	deadline := time.Now().Add(wd())
+	outs := make([]string, n)
+	nblocked := 0
+	for t, cl := range e.callers {
+		left := time.Until(deadline)
+		if left < time.Millisecond {
+			left = time.Millisecond
+		}
+		if !waitDone(cl, left) {
+			outs[t] = "EWaitAck"
+			if nblocked < 3 {
+				directs = append(directs, fmt.Sprintf("Blocked: round %d: caller %d (%s) did not return within the watchdog although the broker acknowledged every call at once", round, t, []string{"SendCall", "SendReplyCall", "SendCallAndWaitReplayCall"}[cl.kind]))
+			}
+			nblocked++
+			continue
+		}
+		outs[t] = cl.st
+		if cl.direct != "" {
+			directs = append(directs, fmt.Sprintf("round %d: %s", round, cl.direct))
+		}
+		want := "(EDone RAcked)"
+		if cl.kind == kCallWait {
+			want = fmt.Sprintf("(EDone (RGotReply (%d,%d,%d)))", -1, cl.canon, 7000+t)
+			// the reply's own call id is whatever the broker numbered it: compare request id and marker only
+			var a, bq, m int
+			if _, err := fmt.Sscanf(cl.st, "(EDone (RGotReply (%d,%d,%d)))", &a, &bq, &m); err == nil && bq == cl.canon && m == 7000+t {
+				want = cl.st
+			}
+		}
+		if cl.st != want && cl.direct == "" {
+			directs = append(directs, fmt.Sprintf("round %d: caller %d (%s, call id %q) returned %s", round, t, []string{"SendCall", "SendReplyCall", "SendCallAndWaitReplayCall"}[cl.kind], cl.callID, cl.st))
+		}
+	}
+	if nblocked > 3 {
+		directs = append(directs, fmt.Sprintf("... and %d more callers of round %d", nblocked-3, round))
+	}
+	e.mu.Lock()
+	lg := append([]ev(nil), e.log...)
+	sent := append([][2]int(nil), e.sent...)
+	for _, d := range dupIDs {
+		directs = append(directs, "two UpstreamCall messages carried the same call id "+d)
+	}
+	e.mu.Unlock()
+	guarded(func() {
+		ctx, cancel := context.WithTimeout(context.Background(), time.Second)
+		defer cancel()
+		conn.Close(ctx)
+	})
+	for _, cl := range e.callers {
+		cl.cancel()
+	}
+	return buildTerm(e, lg, outs, sent, nil, nil, false), directs
+}
+
+func runBurst(c *caseIn) (res result) {
+	seen := map[string]int{}
+	var directs []string
+	lastTerm := ""
+	bad := 0
+	for round := 0; round < c.Rounds; round++ {
+		term, d := runBurstRound(round, c.N, seen)
+		if len(d) > 0 {
+			if bad == 0 && term != "" {
+				res.term = term // the Coq judge sees the first round that went wrong
+			}
+			bad++
+			if len(directs) < 12 {
+				directs = append(directs, d...)
+			}
+			if bad >= 3 {
+				directs = append(directs, fmt.Sprintf("case abandoned after round %d of %d", round, c.Rounds))
+				break
+			}
+		}
+		if term != "" {
+			lastTerm = term
+		}
+	}
+	if res.term == "" {
+		res.term = lastTerm // every round was clean: the judge sees the last one
+	}
+	res.inflight = c.N
+	res.special = 2
+	res.ncalls = len(seen)
+	res.observed = map[string]interface{}{"rounds": c.Rounds, "callers_per_round": c.N, "distinct_call_ids_on_the_wire": len(seen), "rounds_with_anomalies": bad}
+	if len(directs) > 0 {
+		res.direct = strings.Join(directs, "; ")
+	}
+	return
+}
+
 func runCase(c *caseIn) (res result) {
+	if c.Rounds > 0 {
+		return runBurst(c)
+	}
 	e := &env{canon: map[string]int{}}
 	for _, k := range c.Kinds {
 		ctx, cancel := context.WithCancel(context.Background())
@@ -677,72 +930,7 @@ func runCase(c *caseIn) (res result) {
 		cl.cancel()
 	}
 
-	// model caller index = position of the caller's ECall in the history
-	idx := map[int]int{}
-	n := 0
-	var outT []string
-	for _, x := range lg {
-		if x.k == 'C' {
-			if x.t >= 0 {
-				idx[x.t] = n
-			}
-			n++
-			if x.t >= 0 && x.t < len(outs) && outs[x.t] != "" {
-				outT = append(outT, "Some "+outs[x.t])
-			} else {
-				outT = append(outT, "None")
-			}
-		}
-	}
-	var evT []string
-	for _, x := range lg {
-		switch x.k {
-		case 'C':
-			k := "KCall"
-			if x.t >= 0 && x.t < len(e.callers) {
-				switch e.callers[x.t].kind {
-				case kReply:
-					k = fmt.Sprintf("(KReply %d)", 100000+x.t)
-				case kCallWait:
-					k = "KCallWait"
-				}
-			}
-			evT = append(evT, fmt.Sprintf("ECall %s %d", k, x.id))
-		case 'A':
-			evT = append(evT, fmt.Sprintf("EAck %d %d %d", x.id, x.code, x.m))
-		case 'I':
-			evT = append(evT, "EIn "+dcallTerm(x.d))
-		case 'W':
-			if i, ok := idx[x.t]; ok {
-				evT = append(evT, fmt.Sprintf("EWake %d", i))
-			}
-		case 'X':
-			if i, ok := idx[x.t]; ok {
-				evT = append(evT, fmt.Sprintf("ECancel %d", i))
-			}
-		case 'S':
-			if i, ok := idx[x.t]; ok {
-				evT = append(evT, fmt.Sprintf("ESeeClosed %d", i))
-			}
-		case 'L':
-			evT = append(evT, "EClose")
-		case 'r':
-			evT = append(evT, "ERecvCall")
-		case 'p':
-			evT = append(evT, "ERecvReply")
-		}
-	}
-	var sentT, rcT, rrT []string
-	for _, s := range sent {
-		sentT = append(sentT, fmt.Sprintf("(%d,%d)", s[0], s[1]))
-	}
-	for _, d := range rcalls {
-		rcT = append(rcT, dcallTerm(d))
-	}
-	for _, d := range rreplies {
-		rrT = append(rrT, dcallTerm(d))
-	}
-	res.term = fmt.Sprintf("mkE2eCase %s %s %s %s %s %s", coqfmt.List(evT), coqfmt.List(outT), coqfmt.List(sentT), coqfmt.List(rcT), coqfmt.List(rrT), coqfmt.Bool(drained))
+	res.term = buildTerm(e, lg, outs, sent, rcalls, rreplies, drained)
 	res.inflight = maxInflight
 	res.ncalls = len(sent)
 	obsOuts := outs
@@ -994,6 +1182,13 @@ func main() {
 		for i := 0; i < nrec; i++ {
 			add(genRandom(r.Fork(), true), "reconnect")
 		}
+		nburst := 6
+		if *tier == "thorough" {
+			nburst = 40
+		}
+		for i := 0; i < nburst; i++ {
+			add(&caseIn{Rounds: 30 + r.Intn(31), N: 48 + r.Intn(17)}, "id-burst")
+		}
 		add(genOverflow(false), "overflow-calls")
 		add(genOverflow(true), "overflow-replies")
 	}
@@ -1027,7 +1222,7 @@ func main() {
 			w.Count("api:" + []string{"SendCall", "SendReplyCall", "SendCallAndWaitReplayCall"}[k])
 		}
 	}
-	rule := "exhaustive: two SendCallAndWaitReplayCall callers and one SendCall caller in flight, all 120 orders of {ack a, reply a, ack b, reply b, ack c}, b's ack negative in half; random: 2-12 concurrent callers of the three send APIs issued in 1-3 groups, acks and replies in random order (reply before ack, second replies, duplicated acks with another code, acks/replies for unknown ids, negative acks with three codes), cancellations with and without the late message, bursts of incoming calls with interleaved ReceiveCall/ReceiveReplyCall, connection close under waiting callers and calls on the closed connection; reconnect: the link is cut after the calls reached the broker, acks/replies arrive on the redialled connection; overflow: 1030 incoming calls / replies against the 1024-deep inboxes. non-trivial = >=3 calls in flight at once and >=2 of {negative ack, duplicated ack, unknown id, reply before ack, cancellation, reconnect}; distinct = distinct Coq case terms"
+	rule := "exhaustive: two SendCallAndWaitReplayCall callers and one SendCall caller in flight, all 120 orders of {ack a, reply a, ack b, reply b, ack c}, b's ack negative in half; random: 2-12 concurrent callers of the three send APIs issued in 1-3 groups, acks and replies in random order (reply before ack, second replies, duplicated acks with another code, acks/replies for unknown ids, negative acks with three codes), cancellations with and without the late message, bursts of incoming calls with interleaved ReceiveCall/ReceiveReplyCall, connection close under waiting callers and calls on the closed connection; reconnect: the link is cut after the calls reached the broker, acks/replies arrive on the redialled connection; id-burst: 30-60 rounds per case, each on a fresh connection: 48-64 goroutines released by one barrier enter SendCall / SendReplyCall / SendCallAndWaitReplayCall at the same instant with ids from the library's own generator, the broker acknowledges and answers every call at once (reply before ack for half of the call-and-wait callers) - call ids on the wire must be pairwise distinct over the whole case, every caller must return success with its own id / its own reply, nobody may panic or block (checked in Go for every round; the Coq judge sees the first anomalous round, else the last); overflow: 1030 incoming calls / replies against the 1024-deep inboxes. non-trivial = >=3 calls in flight at once and >=2 of {negative ack, duplicated ack, unknown id, reply before ack, cancellation, reconnect}; distinct = distinct Coq case terms"
 	if err := w.Flush(*seed, *tier, rule, false, nil); err != nil {
 		fmt.Fprintln(os.Stderr, err)
 		os.Exit(2)
